@@ -201,7 +201,10 @@ def _strategy_dssp_system(tier):
     )
     seq = st.lists(piece, min_size=1, max_size=5).map(''.join)
     mol = st.fixed_dictionaries({'seq': seq, 'annotated': st.sampled_from(['full', 'full', 'full', 'full', 'full', 'none', 'partial']),
-                                 'atoms_per_res': st.integers(1, 2), 'hole': st.integers(0, 50)})
+                                 'atoms_per_res': st.integers(1, 2), 'hole': st.integers(0, 50),
+                                 # node keys handed out against the order in which the atoms are stored: the residue order of
+                                 # the library (lowest node key first) is then the reverse of the storage order
+                                 'keys_descending': st.sampled_from([False, False, True])})
     return st.fixed_dictionaries({'mols': st.lists(mol, min_size=2, max_size=5), 'twice': st.booleans()})
 
 
@@ -213,8 +216,9 @@ def _run_dssp_system(case):
     layout = []
     for mi, md in enumerate(case['mols']):
         mol = Molecule()
-        key = 0
         seq = md['seq']
+        descending = md.get('keys_descending', False)
+        key = 3 * len(seq) * md['atoms_per_res'] if descending else 0
         hole = md['hole'] % len(seq)
         keys = []
         for ridx, c in enumerate(seq):
@@ -225,7 +229,7 @@ def _run_dssp_system(case):
                     attrs['aasecstruct'] = c
                 mol.add_node(key, **attrs)
                 row.append(key)
-                key += 3
+                key += -3 if descending else 3
             keys.append(row)
         layout.append(keys)
         system.molecules.append(mol)
@@ -248,7 +252,11 @@ def _run_dssp_system(case):
     for mi, (md, mol, keys) in enumerate(zip(case['mols'], system.molecules, layout)):
         seq = md['seq']
         full = md['annotated'] == 'full'
-        expected = ref_convert(seq) if full else None
+        if md.get('keys_descending'):
+            # the residues in the order of their lowest node key are the stored ones backwards
+            expected = ref_convert(seq[::-1])[::-1] if full else None
+        else:
+            expected = ref_convert(seq) if full else None
         for ridx, row in enumerate(keys):
             for key in row:
                 got = mol.nodes[key].get('cgsecstruct')
@@ -265,6 +273,9 @@ def _run_dssp_system(case):
         classes.append('helix-at-both-sides-of-a-molecule-boundary')
     if any(md['annotated'] != 'full' for md in case['mols']):
         classes.append('has-unannotated-molecule')
+    if any(md.get('keys_descending') and md['annotated'] == 'full' and ref_convert(md['seq'][::-1])[::-1] != ref_convert(md['seq'])
+           for md in case['mols']):
+        classes.append('storage-order-against-key-order-matters')
     return Outcome(classes, junction)
 
 
